@@ -2,22 +2,6 @@
 From RV Require Export Sparql.Nodup.
 Local Open Scope N_scope.
 
-(* ---- dup-free patterns (syntactic) ---- *)
-Fixpoint df (p : alg) : bool :=
-  match p with
-  | BGP _ => true
-  | Values rows => nodup_rows rows
-  | Join _ a b | LeftJoin _ a b _ => df a && df b && un a && un b
-  | Filter _ _ _ q => df q
-  | Minus a _ => df a
-  | Extend _ q _ _ => df q
-  | Union _ _ => false
-  | Project q vs => df q && subsetv (maybe q) vs
-  | Graph (Tm _) q => df q
-  | Graph (Vr _) q => df q && un q
-  | Distinct _ => true
-  end.
-
 Definition graphs_nodup (ds : dataset) : Prop :=
   NoDup (map fst (ds_named ds)) /\ forall ng, In ng (ds_named ds) -> NoDup (snd ng).
 
@@ -149,10 +133,6 @@ Qed.
 Definition filter_ok (nis : bool) (fv : option (list var)) (e : expr) (q : alg) : bool :=
   expr_safe e && subsetv (evars e) (cert q)
   && (nis || match fv with Some l => subsetv (evars e) l | None => false end).
-
-(* the right operand of a hash join must not repeat a solution (finding F-C04-3) *)
-Definition hash_ok (pushed : list var) (b : alg) : bool :=
-  df b && (un b || negb (nonempty pushed)).
 
 Fixpoint frag (names : list term) (pushed : list var) (p : alg) : bool :=
   match p with
